@@ -721,7 +721,8 @@ Definition lock_mw : M bool :=
     match r with
     | Ok u => if negb (is_locked u) then ret true
               else log [u_pid u; q_path req] ;;;
-                   try (redirect (ro_fail p_lock_notok)) (fun _ => ret tt) ;;; ret false
+                   (* lock.go:166: a failed redirect is logged, nothing more *)
+                   try (redirect (ro_fail p_lock_notok)) (fun r => match r with Ok _ => ret tt | _ => log [] end) ;;; ret false
     | _ => panic
     end).
 Definition confirm_mw : M bool :=
@@ -729,7 +730,7 @@ Definition confirm_mw : M bool :=
     match r with
     | Ok u => if u_confirmed u then ret true
               else log [u_pid u; q_path req] ;;;
-                   try (redirect (ro_fail p_confirm_notok)) (fun _ => ret tt) ;;; ret false
+                   try (redirect (ro_fail p_confirm_notok)) (fun r => match r with Ok _ => ret tt | _ => log [] end) ;;; ret false
     | _ => panic
     end).
 
